@@ -344,8 +344,14 @@ func (txn *Txn) checkSize(e *Entry) error {
 }
 
 func exceedsSize(prefix string, max int64, key []byte) error {
+	// Only dump the first KB. The offending key or value can be shorter than that (a value
+	// exceeding a small ValueThreshold in InMemory mode), so do not slice beyond its length.
+	dump := key
+	if len(dump) > 1<<10 {
+		dump = dump[:1<<10]
+	}
 	return fmt.Errorf("%s with size %d exceeded %d limit. %s:\n%s",
-		prefix, len(key), max, prefix, hex.Dump(key[:1<<10]))
+		prefix, len(key), max, prefix, hex.Dump(dump))
 }
 
 func (txn *Txn) modify(e *Entry) error {
